@@ -493,6 +493,38 @@ def _json_default(o):
   return str(o)
 
 
+def replay_case(ck, path):
+  """Generic `./check <ID> --replay <file>`: re-runs exactly the stored case on the current tree.
+
+  A replay file written by Check.violation holds the case; when it names the worker module
+  (`worker`, `job`, optional `x64`, `devices`) that one job is run again, when it holds a recorded
+  trace (`trace_module`, `trace_cfg`, `trace`) the trace is validated again.  Exit 1 if the case still
+  fails, 0 if it passes now."""
+  d = json.loads(Path(path).read_text())
+  case = d.get("case") or {}
+  print(f"replaying {d.get('property')} {d.get('key')}: {d.get('what', '')[:300]}")
+  if case.get("worker") and case.get("job") is not None:
+    r = run_workers(case["worker"], [case["job"]], x64=bool(case.get("x64")), devices=case.get("devices"),
+                    work=ck.work, nproc=1)[0]
+    bad = bool(r.get("mismatches")) or bool(r.get("error")) or bool(r.get("clauses"))
+    print(json.dumps({k: v for k, v in r.items() if k in ("mismatches", "error", "worst", "clauses")},
+                     default=str)[:3000])
+  elif case.get("trace_module") and case.get("trace") is not None:
+    t = case["trace"]
+    v = ck.validate(case["trace_module"], case.get("trace_cfg", case["trace_module"]),
+                    [{k: t[k] for k in t if k != "meta"}])[0]
+    print(json.dumps(v))
+    bad = not v["accepted"]
+  else:
+    print("this replay file carries no re-runnable case; re-run the check itself:", d.get("rerun"))
+    return 2
+  if bad:
+    print(f"VIOLATION property={d.get('property')} replay={path}")
+    return 1
+  print("the stored case passes on the current tree")
+  return 0
+
+
 def classify_exception(e):
   """'explicit' if raised by a `raise` statement inside /repo/precondition with
   ValueError/NotImplementedError, else 'internal'."""
